@@ -52,14 +52,21 @@ Print Assumptions C09_no_missing_file_generic.
 (* ---- assign_confidence ---- *)
 
 (* the operation list of assign_confidence (chunk files addressed by the names the run wrote) has the
-   discipline, for every table, chunk size, level count, file format, prefix layout and option set *)
-Theorem C09_run_reads_only_its_own_files : forall g, run_ok g -> wf_ops cfn [] (fs_run_ops g) = true.
+   discipline, for every table, chunk size, level count, file format, prefix layout and option set.
+   [run_okp g]: chunk files not found by glob, results not appended to files of earlier runs, and — when a protein level
+   is requested — there is a peptide level to read from and the picked-protein oracle is given; [run_ok g] (no protein
+   level) implies it *)
+Theorem C09_run_ok_okp : forall g, run_ok g -> run_okp g.
+Proof. exact run_ok_okp. Qed.
+Print Assumptions C09_run_ok_okp.
+
+Theorem C09_run_reads_only_its_own_files : forall g, run_okp g -> wf_ops cfn [] (fs_run_ops g) = true.
 Proof. exact run_ops_wf. Qed.
 Print Assumptions C09_run_reads_only_its_own_files.
 
 (* the result files are the same from any two directories whatsoever (in particular: from a
    directory full of leftovers and from an empty one), and the run succeeds in one iff in the other *)
-Theorem C09_independent : forall g sA sB, run_ok g ->
+Theorem C09_independent : forall g sA sB, run_okp g ->
   match fs_run g None sA, fs_run g None sB with
   | Some a, Some b => forall n, In n (fs_result_names g) -> fs_get ccontent a n = fs_get ccontent b n
   | None, None => True
@@ -69,7 +76,7 @@ Proof. exact run_independent. Qed.
 Print Assumptions C09_independent.
 
 (* after a successful run none of the chunk files and level files it used exists *)
-Theorem C09_no_intermediates : forall g s s', run_ok g -> fs_run g None s = Some s' ->
+Theorem C09_no_intermediates : forall g s s', run_okp g -> fs_run g None s = Some s' ->
   forall n, fs_mem n (touched cfn (fs_run_ops g)) = true -> is_result n = false ->
   fs_get ccontent s' n = None.
 Proof. exact run_no_intermediates. Qed.
@@ -82,7 +89,7 @@ Theorem C09_touches_own_files : forall g, fg_glob g = false -> fg_proteins g = f
 Proof. exact run_touches_own_files. Qed.
 Print Assumptions C09_touches_own_files.
 
-Theorem C09_untouched : forall g s s', run_ok g -> fs_run g None s = Some s' ->
+Theorem C09_untouched : forall g s s', run_okp g -> fs_run g None s = Some s' ->
   forall n, fs_mem n (touched cfn (fs_run_ops g)) = false -> fs_get ccontent s' n = fs_get ccontent s n.
 Proof. exact run_untouched. Qed.
 Print Assumptions C09_untouched.
@@ -193,6 +200,32 @@ Example C09_example_run :
       fs_get ccontent a (NLevel 1 false) = None /\ fs_get ccontent a (NChunk 0 0 false) = None /\
       fs_get ccontent a (NChunk 0 7 false) = Some (fs_plain ex_rows) /\ fs_get ccontent a (NOther 5) = Some []
   | _, _ => False
+  end.
+Proof. vm_compute. repeat split. Qed.
+
+(* with a protein level: the picked-protein step (an oracle keyed by the PSM ids of the peptide-level file) reads level 1
+   and writes the protein-level file, which is consumed and removed like every other level file *)
+Definition ex_prot_rows : list cf_row :=
+  [ {| cf_id := 901; cf_spec := 0; cf_keys := []; cf_target := true;  cf_score := 9 |};
+    {| cf_id := 902; cf_spec := 0; cf_keys := []; cf_target := false; cf_score := 4 |} ].
+Definition ex_cfg_prot : fs_cfg :=
+  {| fg_ext := false; fg_c := 2; fg_dedup := true; fg_nlevels := 2; fg_decoys := true; fg_append := false;
+     fg_glob := false; fg_proteins := true;
+     fg_colls := [ {| fc_pfx := 0; fc_rows := ex_rows; fc_prot := Some ([1; 4], ex_prot_rows) |} ] |}.
+Example C09_run_okp_proteins_satisfiable : run_okp ex_cfg_prot.
+Proof.
+  split; [reflexivity|]. split; [reflexivity|]. intros cl [<-|[]] _. split; [cbn; auto with arith | discriminate].
+Qed.
+
+Example C09_example_proteins :
+  match fs_run ex_cfg_prot None ex_dirty with
+  | Some a =>
+      map (fun c => map (fun r => cf_id (fst r)) c) (match fs_get ccontent a (NResult 0 false 2) with Some c => [c] | None => [] end)
+        = [[901]] /\
+      map (fun c => map (fun r => cf_id (fst r)) c) (match fs_get ccontent a (NResult 0 true 2) with Some c => [c] | None => [] end)
+        = [[902]] /\
+      fs_get ccontent a (NLevel 2 false) = None /\ fs_get ccontent a (NLevel 1 false) = None
+  | None => False
   end.
 Proof. vm_compute. repeat split. Qed.
 
